@@ -70,6 +70,7 @@ struct alignas(128) Buf {
     std::vector<Rec> recs;
     uint64_t rng;
 };
+static std::mutex g_ysize_mx; static size_t g_ysize_bad = 0; static size_t g_ysize_first[2] = {0, 0};
 static std::vector<Buf> g_buf;
 static std::atomic<unsigned long> g_clock(1);
 static std::atomic<unsigned long> g_serial(1);
@@ -278,7 +279,13 @@ int main(int argc, char **argv) {
         }
         ModelSignature model = [&](std::vector<double> const &x, std::vector<double> &y, size_t tid) -> void {
             size_t n = x.size() / (size_t) dims;
-            y.resize(n * (size_t) outs);
+            // documented contract: without an initial guess y arrives with the correct size (num_outputs x number of samples); the model relies on it and
+            // only records a buffer of another size (the values are still written into a buffer that is large enough)
+            if (!guess && y.size() != n * (size_t) outs) {
+                std::lock_guard<std::mutex> lk(g_ysize_mx);
+                if (g_ysize_bad++ == 0) { g_ysize_first[0] = n; g_ysize_first[1] = y.size(); }
+            }
+            if (guess || y.size() < n * (size_t) outs) y.resize(n * (size_t) outs);
             model_core(x.data(), n, y.data(), tid);
         };
         if (mode == "cs") {
@@ -427,6 +434,7 @@ int main(int argc, char **argv) {
     for (auto &il : init_loaded) { printf("IV %d", il.first); for (double v : il.second) printf(" %a", v); printf("\n"); }
     fputs(tr.str().c_str(), stdout);
     for (auto &l : lines) printf("%s\n", l.s.c_str());
+    printf("YSIZE %zu %zu %zu\n", g_ysize_bad, g_ysize_first[0], g_ysize_first[1]);
     printf("FINAL loaded %zu needed %d construction %d\n", nloaded, grid.getNumNeeded(), grid.isUsingConstruction() ? 1 : 0);
     fputs(fin.str().c_str(), stdout);
     printf("RESULT %s\n", result.c_str());
